@@ -285,3 +285,22 @@ class PolyCtx:
                 s += '*%s' % nm + ('^%d' % e if e != 1 else '')
             out.append(s)
         return ' + '.join(out) + (' + ...(%d terms)' % len(p) if len(p) > limit else '')
+
+
+def pdiff(P, p, varname):
+    """partial derivative of a polynomial (var atoms only) w.r.t. the input variable `varname`"""
+    a = P.atom_index.get(('v', varname))
+    if a is None: return {}
+    out = {}
+    for m, c in p.items():
+        d = dict(m)
+        e = d.get(a, 0)
+        if e == 0: continue
+        for x in d:
+            if P.atoms[x][0] != 'var':
+                raise ValueError('pdiff over a non-polynomial term')
+        if e == 1: del d[a]
+        else: d[a] = e - 1
+        mm = tuple(sorted(d.items()))
+        out[mm] = out.get(mm, 0) + c * e
+    return {m: c for m, c in out.items() if c != 0}
